@@ -61,7 +61,19 @@ def select_all(logits):
 
 
 def setup(tier):
-    pass
+    # conformance of the forward-recursion reference (used for long lines only) with the enumeration of all alignments
+    from mc.refmodels.ctc import ctc_forward_log, ctc_brute
+    import math
+    for T in (1, 2, 3):
+        for idx in itertools.product(range(len(ROWS3)), repeat=T):
+            P = [ROWS3[i] for i in idx]
+            with np.errstate(divide='ignore'):
+                logP = [[float(x) for x in r] for r in np.log(np.asarray(P, dtype=float))]
+            for lab, pr in ctc_brute(P, 2).items():
+                got = ctc_forward_log(logP, list(lab), 2)
+                if abs(got - math.log(pr)) > 1e-9:
+                    from mc.core import HarnessError
+                    raise HarnessError(f'forward recursion disagrees with enumeration on {P} {lab}: {got} vs {math.log(pr)}')
 
 
 def shards(tier):
@@ -76,13 +88,32 @@ def shards(tier):
                 for p in itertools.product(range(R), repeat=2):
                     out.append({'C': C, 'T': t, 'prefix': list(p)})
     out.append({'unnorm': True})
+    for T in LONG_T[tier if tier in LONG_T else 'quick']:
+        for k in range(len(LONG_KINDS)):
+            out.append({'long': T, 'kind': k})
     return out
+
+
+LONG_T = {'quick': [260, 300], 'thorough': [260, 300, 520]}      # lines with more than 255 frames (forward-recursion reference)
+LONG_KINDS = ['two-symbols-unpruned', 'peaky-pruned', 'diffuse-pruned']
+
+
+def long_matrix(T, kind):
+    if kind == 0:       # only 'a' and the blank carry mass: every transcript is a^m, few enough to keep all of them
+        return [[0.6, 0.0, 0.4] if (t * 3 + t // 5) % 4 else [0.3, 0.0, 0.7] for t in range(T)]
+    if kind == 1:
+        pat = [ROWS3[0], ROWS3[2], ROWS3[1], ROWS3[2], ROWS3[2], ROWS3[0], ROWS3[0], ROWS3[1]]
+        return [list(pat[(t + t // 11) % len(pat)]) for t in range(T)]
+    return [[0.40, 0.35, 0.25] if t % 3 else [0.2, 0.3, 0.5] for t in range(T)]
 
 
 def run_shard(shard, ctx, tier):
     from mc.core import guarded_check
     import sys
     mod = sys.modules[__name__]
+    if 'long' in shard:
+        guarded_check(mod, {'long': shard['long'], 'kind': shard['kind']}, ctx)
+        return
     if shard.get('unnorm'):
         for C in (3, 4):
             R = len(rows_for(C))
@@ -104,6 +135,54 @@ def decode(C, lp, k, sel):
     dec = CTCPrefixLogRawNumpyDecoder(LETTERS[C], k, **kw)
     boh = dec(lp.copy())
     return [(h.transcript, float(h.vis_sc)) for h in boh]
+
+
+def check_long(case, ctx):
+    from pero_ocr.decoding.decoders import CTCPrefixLogRawNumpyDecoder
+    from mc.refmodels.ctc import ctc_forward_log
+    T, kind = case['long'], case['kind']
+    M = long_matrix(T, kind)
+    lp = to_log(M)
+    logP = [[float(x) for x in r] for r in lp]
+    ctx.state(('long', T, kind))
+    ctx.tag('more-than-255-frames')
+    K = f'{ID}/long/{LONG_KINDS[kind]}'
+    configs = [(400, 'all')] if kind == 0 else [(1, 'default'), (4, 'default'), (4, 'all'), (20, 'all')]
+    memo = {}
+
+    def truth(labels):
+        key = tuple(labels)
+        if key not in memo:
+            memo[key] = ctc_forward_log(logP, list(labels), 2)
+        return memo[key]
+    for k, sel in configs:
+        kw = {} if sel == 'default' else {'relevant_logits_selector': select_all}
+        dec = CTCPrefixLogRawNumpyDecoder(LETTERS[3], k, **kw)
+        hyps = [(h.transcript, float(h.vis_sc)) for h in dec(lp.copy())]
+        ctx.executed()
+        desc = f'{T}-frame line ({LONG_KINDS[kind]}), k={k}, selector {sel}'
+        if len({t for t, _ in hyps}) != len(hyps) or not hyps:
+            ctx.violation('hypotheses-distinct', f'{K}/duplicates-or-empty', f'{desc}: {len(hyps)} hypotheses, {len({t for t, _ in hyps})} distinct')
+            return
+        for t, v in hyps:
+            true = truth(['ab'.index(c) for c in t])
+            if v > true + 1e-6:
+                ctx.violation('never-over-counts', f'{K}/over-count', f'{desc}: {t[:12]!r}.. (length {len(t)}) scored {v}, true log-probability {true}')
+                return
+            if kind == 0 and abs(v - true) > 1e-6:
+                ctx.violation('exact-when-unpruned', f'{K}/unpruned-differs', f'{desc}: a^{len(t)} scored {v}, true log-probability {true}')
+                return
+        if kind == 0:
+            possible = [m for m in range(0, T // 2 + 2) if truth([0] * m) > NEG_INF]
+            if sorted(len(t) for t, _ in hyps) != possible:
+                ctx.violation('exact-when-unpruned', f'{K}/unpruned-missing', f'{desc}: transcripts a^m for m in {sorted(len(t) for t, _ in hyps)[:5]}.. '
+                              f'({len(hyps)}), possible are {len(possible)}')
+                return
+        ctx.outcome(('long', kind, len(hyps)))
+    ctx.nontrivial(('long', T, kind))
+
+
+NEG_INF = float('-inf')
 
 
 def check_unnorm(case, ctx):
@@ -149,6 +228,8 @@ def check_unnorm(case, ctx):
 def check_case(case, ctx):
     if 'unnorm' in case:
         return check_unnorm(case, ctx)
+    if 'long' in case:
+        return check_long(case, ctx)
     C = case['C']
     RA = rows_for(C)
     M = [RA[i] for i in case['rows']]
@@ -259,5 +340,5 @@ def describe(tier):
                         'scores are compared within 1e-9', 'blank is the last symbol'],
         'min_nontrivial': 100,
         'required_tags': ['beam-pruned', 'prefix-joining', 'all-pruned-shortcut', 'selector-pruned', 'unpruned-nodes',
-                          'unnormalised-variants', 'tie-at-beam-boundary', 'float32-and-reused-decoder'],
+                          'unnormalised-variants', 'tie-at-beam-boundary', 'float32-and-reused-decoder', 'more-than-255-frames'],
     }
